@@ -3,6 +3,7 @@ package main
 import (
 	"fmt"
 	"go/token"
+	"go/types"
 	"strings"
 
 	"golang.org/x/tools/go/ssa"
@@ -49,6 +50,8 @@ func init() {
 				Old: "suggestMavenVersion(ctx, opts.ResolveClient, req, opts.UpgradeConfig.Get(req.Name))", New: "suggestMavenVersion(ctx, opts.ResolveClient, req, opts.UpgradeConfig.Get(req.Version))", Rule: "D2-right-level", Site: "Suggest"},
 			{Name: "relax-skips-locked-requirement", File: "guidedremediation/internal/strategy/relax/relax.go", Old: "			if opts.UpgradeConfig.Get(req.VersionKey.Name) == upgrade.None {\n				return nil, common.ErrPatchImpossible\n			}\n", New: "			if opts.UpgradeConfig.Get(req.VersionKey.Name) == upgrade.None {\n				continue\n			}\n", Rule: "D5-progress", Site: "relax"},
 			{Name: "override-reresolves-without-patch", File: "guidedremediation/internal/strategy/override/override.go", Old: "		if !didPatch {\n			break\n		}\n", New: "		_ = didPatch\n", Rule: "D5-progress", Site: "override"},
+			{Name: "allows-patch-lets-minor-through", File: "guidedremediation/upgrade/upgrade.go", Old: "		return (diff != semver.DiffMajor) && (diff != semver.DiffMinor)", New: "		return (diff != semver.DiffMajor) || (diff != semver.DiffMinor)", Rule: "D6-level-semantics", Site: "Allows"},
+			{Name: "allows-none-lets-everything-through", File: "guidedremediation/upgrade/upgrade.go", Old: "	case None:\n		return false\n", New: "	case None:\n		return true\n", Rule: "D6-level-semantics", Site: "Allows"},
 		},
 		Neutral: c11Neutral,
 	})
@@ -253,6 +256,8 @@ func runC11(p *Prog, r *Report) {
 	r.Rule("D3-right-base", "the base of the difference is the version the requirement resolves to today; candidates lie above it")
 	r.Rule("D4-plumbing", "what is patched/reported is what the level-checked scan returned")
 	r.Rule("D5-progress", "every round of a strategy's fix-point loop changes the manifest or leaves the loop")
+	r.Rule("D6-level-semantics", "Level.Allows decides exactly as the level semantics says")
+	c11AllowsTable(p, r)
 	c11Override(p, r)
 	c11Relax(p, r)
 	c11Suggest(p, r)
@@ -1027,4 +1032,117 @@ func rangesOver(b *ssa.BasicBlock, sl ssa.Value) bool {
 	}
 	bi, ok := c.Call.Value.(*ssa.Builtin)
 	return ok && bi.Name() == "len" && c.Call.Args[0] == sl
+}
+
+// c11AllowsTable: upgrade.Level.Allows, as a boolean function of its atomic tests, equals
+//
+//	allows ⇔ diff == Same ∨ level == Major ∨ (level == Minor ∧ diff ≠ DiffMajor)
+//	        ∨ (level == Patch ∧ diff ≠ DiffMajor ∧ diff ≠ DiffMinor)
+//
+// (None and unknown levels allow only "no change"). The level constants are mutually exclusive, so
+// rows in which two of them hold are not compared.
+func c11AllowsTable(p *Prog, r *Report) {
+	fn := p.Func(pkgUpgrade, "Level.Allows")
+	site := "upgrade.Level.Allows"
+	if fn == nil {
+		r.Undecided("D6-level-semantics", "anchor:"+site, "-", "not found")
+		return
+	}
+	atoms, table, ok := decisionTableRaw(fn, false)
+	if !ok {
+		r.Undecided("D6-level-semantics", site, p.Pos(fn.Pos()), "Level.Allows is no longer a loop-free combination of at most 12 atomic tests")
+		return
+	}
+	up := p.TPkg(pkgUpgrade)
+	lv := func(name string) string {
+		c, ok := up.Types.Scope().Lookup(name).(*types.Const)
+		if !ok {
+			return "?"
+		}
+		return c.Val().ExactString() + ":" + types.TypeString(c.Type(), nil)
+	}
+	// semver.Diff constants come from deps.dev (export data): find them through the types of the package
+	var sem *types.Package
+	for _, imp := range up.Types.Imports() {
+		if imp.Path() == pkgSemver {
+			sem = imp
+		}
+	}
+	dv := func(name string) string {
+		if sem == nil {
+			return "?"
+		}
+		c, ok := sem.Scope().Lookup(name).(*types.Const)
+		if !ok {
+			return "?"
+		}
+		return c.Val().ExactString() + ":" + types.TypeString(c.Type(), nil)
+	}
+	eq := func(a, b string) string {
+		if a > b {
+			a, b = b, a
+		}
+		return a + " == " + b
+	}
+	names := map[string]string{
+		eq(dv("Same"), "param1"):      "same",
+		eq(dv("DiffMajor"), "param1"): "dMajor",
+		eq(dv("DiffMinor"), "param1"): "dMinor",
+		eq(lv("Major"), "param0"):     "lMajor",
+		eq(lv("Minor"), "param0"):     "lMinor",
+		eq(lv("Patch"), "param0"):     "lPatch",
+		eq(lv("None"), "param0"):      "lNone",
+	}
+	var vars []string
+	for _, a := range atoms {
+		v, known := names[a]
+		if !known {
+			r.Undecided("D6-level-semantics", site+":atom", p.Pos(fn.Pos()), "Level.Allows tests something the level semantics does not mention: "+a)
+			return
+		}
+		vars = append(vars, v)
+	}
+	have := map[string]bool{}
+	for _, v := range vars {
+		have[v] = true
+	}
+	for _, n := range []string{"same", "dMajor", "dMinor", "lMajor", "lMinor", "lPatch"} {
+		if !have[n] {
+			r.Fail("D6-level-semantics", site+":"+n, p.Pos(fn.Pos()), "Level.Allows no longer makes the test '"+n+"'")
+			return
+		}
+	}
+	for row := 0; row < len(table); row++ {
+		val := map[string]bool{}
+		for k, v := range vars {
+			val[v] = row&(1<<k) != 0
+		}
+		// exclusive constants: at most one level, at most one diff kind
+		nl, nd := 0, 0
+		for _, n := range []string{"lMajor", "lMinor", "lPatch", "lNone"} {
+			if val[n] {
+				nl++
+			}
+		}
+		for _, n := range []string{"same", "dMajor", "dMinor"} {
+			if val[n] {
+				nd++
+			}
+		}
+		if nl > 1 || nd > 1 {
+			continue
+		}
+		model := val["same"] || val["lMajor"] || (val["lMinor"] && !val["dMajor"]) || (val["lPatch"] && !val["dMajor"] && !val["dMinor"])
+		if model != (table[row] == '1') {
+			var desc []string
+			for k, v := range vars {
+				if row&(1<<k) != 0 {
+					desc = append(desc, v)
+				}
+			}
+			r.Fail("D6-level-semantics", site, p.Pos(fn.Pos()), fmt.Sprintf("Level.Allows answers %v when [%s] hold, the level semantics says %v: an upgrade beyond (or within) the configured level is judged wrongly", table[row] == '1', strings.Join(desc, " "), model))
+			return
+		}
+	}
+	r.OK("D6-level-semantics", site, p.Pos(fn.Pos()), fmt.Sprintf("equals the level semantics on all consistent combinations of its %d tests", len(atoms)))
 }
